@@ -20,7 +20,7 @@ use tvh::out::CaseOut;
 use tvh::rng::Rng;
 use tvh::{guarded, Args};
 
-const HEADER: &str = "From TV Require Import Base.Prelude Text.BinOpFold Text.Grammar Text.Logical Generated.Constants.";
+const HEADER: &str = "From TV Require Import Base.Prelude Text.BinOpFold Text.Grammar Text.Logical Text.GrammarProofs Generated.Constants.";
 const F12_MSG: &str = "Exist query without a field isn't allowed";
 
 // ------------------------------------------------------------------ Gallina printers
@@ -167,7 +167,7 @@ impl Cq {
 fn ends_with_cmp(c: &Cq) -> bool { match c { Cq::Lit(_, CLeaf::Cmp(..)) => true, Cq::Not(_, x) => ends_with_cmp(x), _ => false } }
 // ------------------------------------------------------------------ generators
 #[derive(Clone, Copy, PartialEq)]
-enum Mode { Grammar, Frag, Typed }
+enum Mode { Grammar, Frag, Typed, Phrase }
 struct Gen<'a> { rng: &'a mut Rng, mode: Mode, loose_sep: bool }
 const WORDS: &[&str] = &["a", "b", "c", "d", "e", "foo", "bar", "baz", "x1", "y2", "hello", "world", "ANDy", "ORx", "NOTE", "INK", "a-b", "a+b", "w*", "t~2", "é", "日本", "a.b", "x!y", "TO", "q=1", "z,"];
 const VOCAB: &[&str] = &["a", "b", "c", "d", "e", "foo", "bar", "baz"];
@@ -216,7 +216,8 @@ impl<'a> Gen<'a> {
         match self.rng.below(6) { 0 => None, 1 => Some(format!("-{}", self.digits(3))), 2 => Some(self.digits(4)), 3 => Some("2020-01-01T00:00:00Z".into()), 4 => Some(format!("{}.{}", self.digits(2), self.digits(2))), _ => Some(self.rng.pick(&["a", "abc", "x:y", "a^2", "w*", "TO", "é"]).to_string()) }
     }
     fn leaf(&mut self) -> Cq {
-        let k = match self.mode { Mode::Frag | Mode::Typed => self.rng.below(3), Mode::Grammar => self.rng.below(10) };
+        if self.mode == Mode::Phrase { let dq = self.rng.chance(1, 2); let b = self.body(dq); return Cq::Lit(None, CLeaf::Phrase(dq, b, Slop::None)); }
+        let k = match self.mode { Mode::Frag | Mode::Typed | Mode::Phrase => self.rng.below(3), Mode::Grammar => self.rng.below(10) };
         match k {
             0 | 1 | 7 => { let f = self.field(); Cq::Lit(f, CLeaf::Word(self.word())) }
             2 => {
